@@ -40,7 +40,7 @@ theorem gen_new_container (path : Name) (ub : UB) (w : World) :
   · simp [pyH5Create, h1]
   · by_cases h2 : (getF w.disk path).isSome = true
     · simp [pyH5Create, h1, h2]
-    · simp [pyH5Create, h1, h2, pyH5Close, pyUBSave, pyH5Open, getF_setF_eq, setF_setF, gen_constants.1, createTrace]
+    · simp [pyH5Create, h1, h2, pyH5Close, pyUBSave, pyH5Open, getF_setF_eq, setF_setF, gen_constants, createTrace]
 
 /-! ## `create_patch` -/
 
